@@ -356,3 +356,9 @@ func DeviceTZ(t *rapid.T, label string) string {
 func Debug(t *rapid.T, label string) bool {
 	return rapid.IntRange(0, 3).Draw(t, label) == 0
 }
+
+// Doors draws the door-name list of a configured controller (nil, empty, 1..5 names, blank names). The library keeps the
+// names for its users; no listed property lets them influence a request, a route or a result.
+func Doors(t *rapid.T, label string) []string {
+	return rapid.SampledFrom([][]string{nil, nil, {}, {"D1"}, {"D1", "D2"}, {"D1", "D2", "D3"}, {"Front", "Back", "Garage", "Attic"}, {"D1", "D2", "D3", "D4", "D5"}, {"", "", "", ""}}).Draw(t, label)
+}
